@@ -463,6 +463,8 @@ func (r *Rng) spell(t *gtree, l geom.Layout) string {
 
 var wktLayouts = []geom.Layout{geom.XY, geom.XYZ, geom.XYM, geom.XYZM}
 
+var c05Encoder = wkt.NewEncoder()
+
 func genC05(r *Rng, e *Emitter, n int) {
 	for i := 0; i < n; i++ {
 		l := wktLayouts[r.Intn(4)]
@@ -476,8 +478,21 @@ func genC05(r *Rng, e *Emitter, n int) {
 			in := t.sx()
 			e.pending("C05.enc", in)
 			var text string
+			usePersist := r.chance(1, 2)
+			if r.chance(1, 10) {
+				// an Encode that fails part-way on the long-lived encoder (a collection whose later member
+				// cannot be written): the next Encode on the same Encoder must not be affected
+				bad := geom.NewGeometryCollection().MustPush(geom.NewPointFlat(geom.XY, []float64{7, 8}), geom.NewLineString(geom.NoLayout))
+				guard(func() string { _, _ = c05Encoder.Encode(bad); return "" })
+			}
 			out := guard(func() string {
-				s, err := wkt.Marshal(t.build())
+				var s string
+				var err error
+				if usePersist {
+					s, err = c05Encoder.Encode(t.build()) // one Encoder value reused for the whole run
+				} else {
+					s, err = wkt.Marshal(t.build())
+				}
 				if err != nil {
 					return sxErr(err)
 				}
